@@ -85,13 +85,13 @@ def SufOK (c : Char) (suf : Str) : Prop :=
   suf.head? ≠ some c ∧ ∀ x ∈ suf, x ≠ '\r' ∧ x ≠ '\n'
 
 theorem parseDelimLine_rep (c : Char) (n : Nat) (suf : Str) (hn : 3 ≤ n) (hc : c ≠ '\n') (hs : SufOK c suf) :
-    parseDelimLine (rep c n ++ suf ++ ['\n']) c = some (n, suf) := by
+    parseDelimLine (rep c n ++ (suf ++ ['\n'])) c = some (n, suf) := by
   unfold parseDelimLine
   have hhead : (suf ++ ['\n']).head? ≠ some c := by
     cases suf with
     | nil => simpa using fun h => hc h.symm
     | cons x xs => simpa using hs.1
-  rw [List.append_assoc, takeWhile_rep c n _ hhead]
+  rw [takeWhile_rep c n _ hhead]
   have hlen : (rep c n).length = n := by simp [rep]
   simp only [hlen]
   have : ¬ n < 3 := by omega
@@ -167,7 +167,7 @@ theorem splitIncl_flatten (s : Str) : (splitIncl s).flatten = s := by
 /-! ## what the writer is allowed to be given -/
 
 def kwds : List Str :=
-  [":skip".toList, ":platform".toList, ":fail-fast".toList, ":error".toList, ":language".toList, ":cst".toList]
+  [kwSkip, kwPlatform, kwFailFast, kwError, kwLanguage, kwCst]
 
 /-- A name that `parse_header` takes as the single name line and reads back unchanged. -/
 structure NameOK (name : Str) : Prop where
@@ -196,10 +196,10 @@ theorem suffixMatches_fsOf (suf : Str) : suffixMatches (fsOf suf) suf = true := 
   cases suf <;> simp [fsOf, suffixMatches]
 
 def hdrL (suf : Str) (c : Correction) : List Str :=
-  [rep '=' c.hlen ++ suf ++ ['\n'], c.name ++ ['\n'], rep '=' c.hlen ++ suf ++ ['\n']]
+  [rep '=' c.hlen ++ (suf ++ ['\n']), c.name ++ ['\n'], rep '=' c.hlen ++ (suf ++ ['\n'])]
 
 def bodyL (suf : Str) (c : Correction) : List Str :=
-  splitIncl (c.input ++ ['\n']) ++ ((rep '-' c.dlen ++ suf ++ ['\n']) :: ['\n'] :: splitIncl (trim c.output ++ ['\n']))
+  splitIncl (c.input ++ ['\n']) ++ ((rep '-' c.dlen ++ (suf ++ ['\n'])) :: ['\n'] :: splitIncl (trim c.output ++ ['\n']))
 
 def pend (c : Correction) : Pending := { name := c.name, attrsStr := [], hlen := c.hlen, attrs := {} }
 
@@ -212,7 +212,7 @@ theorem noDelim_nl (c : Char) (h : c ≠ '\n') : NoDelim c ['\n'] :=
   noDelim_of_head (by simpa using fun h' => h h'.symm)
 
 theorem isHeaderDelim_rep (suf : Str) (n : Nat) (hn : 3 ≤ n) (hs : SufOK '=' suf) :
-    isHeaderDelim (fsOf suf) (rep '=' n ++ suf ++ ['\n']) = true := by
+    isHeaderDelim (fsOf suf) (rep '=' n ++ (suf ++ ['\n'])) = true := by
   simp [isHeaderDelim, parseDelimLine_rep '=' n suf hn (by decide) hs, suffixMatches_fsOf]
 
 theorem isHeaderDelim_noDelim (fs : Option Str) (l : Str) (h : NoDelim '=' l) : isHeaderDelim fs l = false := by
@@ -238,8 +238,8 @@ theorem parseHeader_hdr (os suf : Str) (c : Correction) (rest : List Str) (h : S
   simp only [hdrL, List.cons_append, List.nil_append, parseHeader, hd, suffixMatches_fsOf, Bool.not_true,
     Bool.false_eq_true, ↓reduceIte, headerLoop, isHeaderDelim_noDelim _ _ h.name.noDelim,
     headerLine_name os c.name h.name, isHeaderDelim_rep suf c.hlen h.hlen hs]
-  simp [stripPrefix_self, trimEnd, dropWhileEnd, h.name.trimmed, pend]
-  exact h.name.trimmed
+  have e1 : trimEnd ([] : Str) = [] := rfl
+  simp [stripPrefix_self, e1, h.name.trimmed, pend]
 
 /-- The body the reader collects for a written test (plus following separator lines) gives back the input. -/
 theorem buildEntry_body (suf : Str) (c : Correction) (sep : List Str) (p : Pending)
@@ -247,23 +247,200 @@ theorem buildEntry_body (suf : Str) (c : Correction) (sep : List Str) (p : Pendi
     ∃ e, buildEntry (fsOf suf) (bodyL suf c ++ sep) p = some e ∧
       e.name = p.name ∧ e.attrsStr = p.attrsStr ∧ e.input = c.input := by
   have hin : ∀ l ∈ splitIncl (c.input ++ ['\n']), NoDelim '-' l := fun l hl => (h.inputLines l hl).2
-  have hrest : ∀ l ∈ ['\n'] :: (splitIncl (trim c.output ++ ['\n']) ++ sep), NoDelim '-' l := by
+  have hrest : ∀ l ∈ splitIncl (trim c.output ++ ['\n']) ++ sep, NoDelim '-' l := by
     intro l hl
-    simp only [List.mem_cons, List.mem_append] at hl
-    rcases hl with hl | hl | hl
-    · subst hl; exact noDelim_nl '-' (by decide)
+    simp only [List.mem_append] at hl
+    rcases hl with hl | hl
     · exact (h.outputLines l hl).2
     · exact hsep l hl
+  have hnl : parseDelimLine ['\n'] '-' = none := parseDelimLine_noDelim (noDelim_nl '-' (by decide))
   have hbest : bestDivider (fsOf suf) (bodyL suf c ++ sep) 0 none 0 =
       some (c.dlen, (splitIncl (c.input ++ ['\n'])).length) := by
     simp only [bodyL, List.append_assoc, List.cons_append]
     rw [bestDivider_noDelim _ _ _ _ _ _ hin]
     simp only [bestDivider, parseDelimLine_rep '-' c.dlen suf h.dlen (by decide) hs, suffixMatches_fsOf,
-      Bool.true_and, ge_iff_le, Nat.zero_le, decide_true, ↓reduceIte, Nat.zero_add]
+      Bool.true_and, ge_iff_le, Nat.zero_le, decide_true, ↓reduceIte, Nat.zero_add, hnl]
     exact bestDivider_noDelim_end _ _ _ _ _ hrest
   refine ⟨_, by simp only [buildEntry, hbest]; rfl, rfl, rfl, ?_⟩
   simp only [bodyL, List.append_assoc]
   rw [List.take_left' rfl, splitIncl_flatten]
   exact h.inputCr
+
+/-! ## the lines of a written file -/
+
+/-- The part of a correction / of an entry that is not an expected output. -/
+def Correction.skey (c : Correction) : Str × Str × Str := (c.name, c.attrsStr, c.input)
+def Entry.skey (e : Entry) : Str × Str × Str := (e.name, e.attrsStr, e.input)
+
+theorem splitIncl_line_cons2 (a b rest : Str) (h : '\n' ∉ a ++ b) :
+    splitIncl (a ++ (b ++ '\n' :: rest)) = (a ++ (b ++ ['\n'])) :: splitIncl rest := by
+  have := splitIncl_line_cons (a ++ b) rest h
+  simpa [List.append_assoc] using this
+
+theorem nl_notin_rep (c : Char) (n : Nat) (suf : Str) (hc : c ≠ '\n') (hs : ∀ x ∈ suf, x ≠ '\r' ∧ x ≠ '\n') :
+    '\n' ∉ rep c n ++ suf := by
+  simp only [rep, List.mem_append, List.mem_replicate, not_or, not_and]
+  exact ⟨fun _ h => hc h.symm, fun h => (hs _ h).2 rfl⟩
+
+theorem splitIncl_writeOne (suf : Str) (c : Correction) (rest : Str) (h : Simple c)
+    (hs : ∀ x ∈ suf, x ≠ '\r' ∧ x ≠ '\n') :
+    splitIncl (writeOne suf c ++ rest) = hdrL suf c ++ (bodyL suf c ++ splitIncl rest) := by
+  have e : writeOne suf c ++ rest =
+      rep '=' c.hlen ++ (suf ++ '\n' :: (c.name ++ '\n' :: (rep '=' c.hlen ++ (suf ++ '\n' ::
+        (c.input ++ '\n' :: (rep '-' c.dlen ++ (suf ++ '\n' :: '\n' :: (trim c.output ++ '\n' :: rest)))))))) := by
+    simp [writeOne, h.attrs]
+  rw [e, splitIncl_line_cons2 _ _ _ (nl_notin_rep '=' _ suf (by decide) hs),
+    splitIncl_line_cons _ _ h.name.noNl,
+    splitIncl_line_cons2 _ _ _ (nl_notin_rep '=' _ suf (by decide) hs),
+    splitIncl_append,
+    splitIncl_line_cons2 _ _ _ (nl_notin_rep '-' _ suf (by decide) hs)]
+  have e2 : ∀ x : Str, splitIncl ('\n' :: x) = ['\n'] :: splitIncl x := by intro x; simp [splitIncl]
+  rw [e2, splitIncl_append]
+  simp [hdrL, bodyL]
+
+/-- Lines of the tests after the first one: a blank separator line, then header and body. -/
+def tailLines (suf : Str) (cs : List Correction) : List Str :=
+  (cs.map fun c => ['\n'] :: (hdrL suf c ++ bodyL suf c)).flatten
+
+theorem splitIncl_tail (suf : Str) (hs : ∀ x ∈ suf, x ≠ '\r' ∧ x ≠ '\n') :
+    ∀ cs : List Correction, (∀ c ∈ cs, Simple c) →
+      splitIncl (cs.map fun c => '\n' :: writeOne suf c).flatten = tailLines suf cs
+  | [], _ => by simp [tailLines, splitIncl]
+  | c :: cs, h => by
+    have ih := splitIncl_tail suf hs cs (fun x hx => h x (by simp [hx]))
+    simp only [List.map_cons, List.flatten_cons, List.cons_append, tailLines]
+    have e2 : ∀ x : Str, splitIncl ('\n' :: x) = ['\n'] :: splitIncl x := by intro x; simp [splitIncl]
+    rw [e2, splitIncl_writeOne suf c _ (h c (by simp)) hs, ih]
+    simp [tailLines]
+
+theorem splitIncl_writeTests (suf : Str) (hs : ∀ x ∈ suf, x ≠ '\r' ∧ x ≠ '\n') (c : Correction) (cs : List Correction)
+    (h : ∀ x ∈ c :: cs, Simple x) :
+    splitIncl (writeTests suf (c :: cs)) = hdrL suf c ++ (bodyL suf c ++ tailLines suf cs) := by
+  rw [writeTests, splitIncl_writeOne suf c _ (h c (by simp)) hs,
+    splitIncl_tail suf hs cs (fun x hx => h x (by simp [hx]))]
+
+/-! ## the reader on those lines -/
+
+theorem bodyL_noHeader (suf : Str) (c : Correction) (h : Simple c) : ∀ l ∈ bodyL suf c, NoDelim '=' l := by
+  intro l hl
+  simp only [bodyL, List.mem_append, List.mem_cons] at hl
+  rcases hl with hl | hl | hl | hl
+  · exact (h.inputLines l hl).1
+  · subst hl
+    apply noDelim_of_head
+    have : 0 < c.dlen := by have := h.dlen; omega
+    obtain ⟨k, hk⟩ := Nat.exists_eq_succ_of_ne_zero (Nat.pos_iff_ne_zero.mp this)
+    simp [rep, hk, List.replicate_succ]
+  · subst hl; exact noDelim_nl '=' (by decide)
+  · exact (h.outputLines l hl).1
+
+theorem skey_of_built {c0 : Correction} {e : Entry} (h : Simple c0)
+    (h1 : e.name = (pend c0).name) (h2 : e.attrsStr = (pend c0).attrsStr) (h3 : e.input = c0.input) :
+    e.skey = c0.skey := by
+  simp [Entry.skey, Correction.skey, h1, h2, h3, pend, h.attrs]
+
+/-- The scanning loop over the remaining tests of a written file, a test `c0` being pending with its
+own body lines collected. -/
+theorem scan_tail (os suf : Str) (hse : SufOK '=' suf) (hsd : SufOK '-' suf) :
+    ∀ (cs : List Correction) (c0 : Correction) (acc : List Entry), Simple c0 → (∀ c ∈ cs, Simple c) →
+      (scan (fsOf suf) os (tailLines suf cs) 0 (some (pend c0)) (bodyL suf c0).reverse acc).map Entry.skey
+        = acc.map Entry.skey ++ c0.skey :: cs.map Correction.skey
+  | [], c0, acc, h0, _ => by
+    obtain ⟨e, he, h1, h2, h3⟩ := buildEntry_body suf c0 [] (pend c0) h0 hsd (by simp)
+    simp only [List.append_nil] at he
+    simp [tailLines, scan, finishPrev, he, skey_of_built h0 h1 h2 h3]
+  | c :: cs, c0, acc, h0, h => by
+    have hc := h c (by simp)
+    obtain ⟨e, he, h1, h2, h3⟩ := buildEntry_body suf c0 [['\n']] (pend c0) h0 hsd
+      (by intro l hl; simp at hl; subst hl; exact noDelim_nl '-' (by decide))
+    have ih := scan_tail os suf hse hsd cs c (acc ++ [e]) hc (fun x hx => h x (by simp [hx]))
+    have e1 : tailLines suf (c :: cs) = ['\n'] :: (hdrL suf c ++ (bodyL suf c ++ tailLines suf cs)) := by
+      simp [tailLines]
+    rw [e1, scan, parseHeader_none_of_noDelim _ _ _ _ (noDelim_nl '=' (by decide))]
+    have hp := parseHeader_hdr os suf c (bodyL suf c ++ tailLines suf cs) hc hse
+    have e3 : hdrL suf c ++ (bodyL suf c ++ tailLines suf cs) =
+        (rep '=' c.hlen ++ (suf ++ ['\n'])) :: (c.name ++ ['\n']) :: (rep '=' c.hlen ++ (suf ++ ['\n'])) ::
+          (bodyL suf c ++ tailLines suf cs) := by simp [hdrL]
+    rw [e3] at hp ⊢
+    simp only [scan, hp]
+    have e4 : finishPrev (fsOf suf) (some (pend c0)) (['\n'] :: (bodyL suf c0).reverse) = [e] := by
+      simp [finishPrev, he]
+    rw [e4, scan_noHeader _ _ _ _ _ _ _ (bodyL_noHeader suf c hc)]
+    simp only [List.append_nil]
+    rw [ih]
+    simp [skey_of_built h0 h1 h2 h3]
+
+/-! ## the file's suffix as the reader discovers it -/
+
+theorem firstSuffix_none_of (ls : List Str)
+    (h : ∀ l ∈ ls, ∀ n s, parseDelimLine l '=' = some (n, s) → s = []) : firstSuffix ls = none := by
+  induction ls with
+  | nil => rfl
+  | cons l ls ih =>
+    have ih' := ih (fun x hx => h x (by simp [hx]))
+    unfold firstSuffix
+    cases hp : parseDelimLine l '=' with
+    | none => simpa using ih'
+    | some ns =>
+      obtain ⟨n, s⟩ := ns
+      have := h l (by simp) n s hp
+      subst this
+      simpa using ih'
+
+theorem firstSuffix_written (suf : Str) (hse : SufOK '=' suf) (c : Correction) (cs : List Correction)
+    (h : ∀ x ∈ c :: cs, Simple x) :
+    firstSuffix (hdrL suf c ++ (bodyL suf c ++ tailLines suf cs)) = fsOf suf := by
+  cases hsuf : suf with
+  | cons x xs =>
+    have hd := parseDelimLine_rep '=' c.hlen suf (h c (by simp)).hlen (by decide) hse
+    rw [hsuf] at hd
+    simp [hdrL, firstSuffix, hd, fsOf]
+  | nil =>
+    have hse' : SufOK '=' [] := hsuf ▸ hse
+    simp only [fsOf, List.isEmpty_nil, ↓reduceIte]
+    apply firstSuffix_none_of
+    have key : ∀ (c : Correction), Simple c → ∀ l ∈ hdrL [] c ++ bodyL [] c,
+        ∀ n s, parseDelimLine l '=' = some (n, s) → s = [] := by
+      intro c hc l hl n s hp
+      simp only [List.mem_append] at hl
+      rcases hl with hl | hl
+      · simp only [hdrL, List.mem_cons, List.not_mem_nil, or_false] at hl
+        rcases hl with hl | hl | hl
+        · subst hl; rw [parseDelimLine_rep '=' c.hlen [] hc.hlen (by decide) hse'] at hp; simp at hp; exact hp.2.symm
+        · subst hl; rw [parseDelimLine_noDelim hc.name.noDelim] at hp; simp at hp
+        · subst hl; rw [parseDelimLine_rep '=' c.hlen [] hc.hlen (by decide) hse'] at hp; simp at hp; exact hp.2.symm
+      · rw [parseDelimLine_noDelim (bodyL_noHeader [] c hc l hl)] at hp; simp at hp
+    intro l hl n s hp
+    simp only [← List.append_assoc, List.mem_append (bs := tailLines [] cs)] at hl
+    rcases hl with hl | hl
+    · exact key c (h c (by simp)) l hl n s hp
+    · simp only [tailLines, List.mem_flatten, List.mem_map] at hl
+      obtain ⟨grp, ⟨c', hc', rfl⟩, hl⟩ := hl
+      simp only [List.mem_cons] at hl
+      rcases hl with hl | hl
+      · subst hl; rw [parseDelimLine_noDelim (noDelim_nl '=' (by decide))] at hp; simp at hp
+      · exact key c' (h c' (by simp [hc'])) l hl n s hp
+
+/-- `parse_write_roundtrip` for `Simple` corrections: the reader applied to the written file returns,
+in order, one entry per correction with the same name, attribute text and input — for every list of
+corrections, every delimiter lengths ≥ 3 and every admissible suffix. -/
+theorem roundtrip_simple (os suf : Str) (hse : SufOK '=' suf) (hsd : SufOK '-' suf) (cs : List Correction)
+    (h : ∀ c ∈ cs, Simple c) :
+    (parseFile os (writeTests suf cs)).map Entry.skey = cs.map Correction.skey := by
+  cases cs with
+  | nil => simp [parseFile, writeTests, splitIncl, scan, finishPrev, firstSuffix]
+  | cons c cs =>
+    have hc := h c (by simp)
+    unfold parseFile
+    simp only [splitIncl_writeTests suf hse.2 c cs h, firstSuffix_written suf hse c cs h]
+    have hp := parseHeader_hdr os suf c (bodyL suf c ++ tailLines suf cs) hc hse
+    have e3 : hdrL suf c ++ (bodyL suf c ++ tailLines suf cs) =
+        (rep '=' c.hlen ++ (suf ++ ['\n'])) :: (c.name ++ ['\n']) :: (rep '=' c.hlen ++ (suf ++ ['\n'])) ::
+          (bodyL suf c ++ tailLines suf cs) := by simp [hdrL]
+    rw [e3] at hp ⊢
+    simp only [scan, hp]
+    rw [scan_noHeader _ _ _ _ _ _ _ (bodyL_noHeader suf c hc)]
+    have := scan_tail os suf hse hsd cs c [] hc (fun x hx => h x (by simp [hx]))
+    simpa [finishPrev] using this
 
 end TsVerif.C20
